@@ -361,7 +361,7 @@ pub fn run_polyv(op: &str, args: &[Arg], st: &mut Stats) -> Option<Out> {
         }
         (_, "b") => run_f::<BFieldElement>(op, a, st),
         (_, "x") => run_f::<XFieldElement>(op, a, st),
-        _ => None,
+        _ => super::c17bulk::run_polyv_more(op, args, st), // history ops (c17bulk.rs)
     }
 }
 
